@@ -620,10 +620,11 @@ class ESME:
                         smpp_message = await asyncio.shield(handling)
                     except CancelledError:
                         # Let the handling finish, but do not wait for the user's hooks for ever: they
-                        # may be waiting for something that only a running session provides
+                        # may be waiting for something that only a running session provides. After
+                        # socket_timeout the handling carries on by itself
                         _done, pending = await asyncio.wait({handling}, timeout=self.socket_timeout)
                         for task in pending:
-                            task.cancel()
+                            task.add_done_callback(lambda ended: ended.cancelled() or ended.exception())
                         raise
 
                 if not smpp_message:
